@@ -21,6 +21,10 @@ claimed = {
    text="Deductive proof: (relational, two executions of the real handleJcc/handleCALL) shifting the target and the origin by the same delta leaves the emitted branch bytes unchanged; processORG sets LOC and the origin to the ORG value and nothing else (frame), and without ORG both are zero-initialised; processORG emits nothing.",
    note=TRUST + " Covers the branch and ORG functions; that every label value equals origin+offset is C03's obligation. Hand-off of the origin through frontend.Exec/pass2 is listed under not-yet-covered in the evidence.",
    design="DESIGN.md section 4, C16"),
+ "C18": dict(
+   text="Deductive proof over the real selection code: the two comparators handed to lo.MinBy (findBestEncodingForSignExtendable / ...NonSignExtendable) return true exactly as a shortest-valid-encoding order requires (sound and complete clauses against an independent size/validity spec), GetOutputSize equals the row's byte count, ImmediateValueFitsInSigned8Bits is exactly -128..127 on the first immediate operand, getImmediateSizeType has the signed 8/16/32 thresholds, isSignExtendable is the ALU group, registerToPushPopCode gives the +r register numbers.",
+   note=TRUST + " lo.MinBy (left fold with the comparator) and the candidate set coming from the asmdb JSON table are assumed (A3, A7); opcode-length findings recorded.",
+   design="DESIGN.md section 4, C18"),
  "C02": dict(
    text="Deductive proof, for all inputs, that the real calculateModRM (the only producer of mod/rm/SIB/displacement) emits bytes that an independent SDM decoder maps back to exactly the written base, index, scale and displacement at the address size implied by the registers, in both modes; obligations are generated from /repo's SSA on every run and discharged by z3/cvc5. Five recorded input regions where the current tree violates the clause are excluded as known findings and re-confirmed on every run.",
    note=TRUST + " Operand text -> MemoryInfo (PEG) is assumed (A2).",
